@@ -355,7 +355,7 @@ func runC11(p *core.Program, r *core.Report) {
 		}
 		hasCond := false
 		for i := 0; i < st.NumFields(); i++ {
-			if st.Field(i).Type().String() == "*sync.Cond" {
+			if strings.HasSuffix(st.Field(i).Type().String(), "sync.Cond") {
 				hasCond = true
 			}
 		}
